@@ -519,6 +519,13 @@ func check(c *Ctx, r *Report) error {
 	coqPts := TierN(c.Tier, 48, 300, 60)
 	pid := 0 // global point id
 	signDis, valDis, certBad := 0, 0, 0
+	seenKey := map[string]bool{}
+	violate := func(key, what string, input interface{}) {
+		if !seenKey[key] {
+			seenKey[key] = true
+			r.Violate(key, what, input)
+		}
+	}
 	famCount := map[string]int{}
 
 	for pi, pl := range polys {
@@ -661,7 +668,7 @@ func check(c *Ctx, r *Report) error {
 					signDis++
 					if polyViol < 12 {
 						polyViol++
-						r.Violate("sign-fast:"+key, fmt.Sprintf("polygon %s at p=(%v,%v): quadtree Evaluate = %v but the exact crossing number is %d (brute force %v): wrong inside/outside answer",
+						violate("sign-fast:"+key, fmt.Sprintf("polygon %s at p=(%v,%v): quadtree Evaluate = %v but the exact crossing number is %d (brute force %v): wrong inside/outside answer",
 							pl.name, q.p.X, q.p.Y, f, wn, s), inp)
 					}
 				}
@@ -670,7 +677,7 @@ func check(c *Ctx, r *Report) error {
 					signDis++
 					if polyViol < 12 {
 						polyViol++
-						r.Violate("sign-slow:"+key, fmt.Sprintf("polygon %s at p=(%v,%v): brute-force Evaluate = %v but the exact crossing number is %d",
+						violate("sign-slow:"+key, fmt.Sprintf("polygon %s at p=(%v,%v): brute-force Evaluate = %v but the exact crossing number is %d",
 							pl.name, q.p.X, q.p.Y, s, wn), inp)
 					}
 				}
@@ -681,7 +688,7 @@ func check(c *Ctx, r *Report) error {
 				valDis++
 				if polyViol < 12 {
 					polyViol++
-					r.Violate("value-fast-slow:"+key, fmt.Sprintf("polygon %s at p=(%v,%v): |quadtree Evaluate| = %v differs from |brute force| = %v", pl.name, q.p.X, q.p.Y, math.Abs(f), math.Abs(s)), inp)
+					violate("value-fast-slow:"+key, fmt.Sprintf("polygon %s at p=(%v,%v): |quadtree Evaluate| = %v differs from |brute force| = %v", pl.name, q.p.X, q.p.Y, math.Abs(f), math.Abs(s)), inp)
 				}
 			}
 			tole := 1e-12*de + 1e-12*math.Max(scale, math.Max(math.Abs(q.p.X), math.Abs(q.p.Y)))
@@ -690,7 +697,7 @@ func check(c *Ctx, r *Report) error {
 				valDis++
 				if polyViol < 12 {
 					polyViol++
-					r.Violate("value-exact:"+key, fmt.Sprintf("polygon %s at p=(%v,%v): |Evaluate| = %v (brute force %v) but the exact distance to the nearest edge is %v", pl.name, q.p.X, q.p.Y, math.Abs(f), math.Abs(s), de), inp)
+					violate("value-exact:"+key, fmt.Sprintf("polygon %s at p=(%v,%v): |Evaluate| = %v (brute force %v) but the exact distance to the nearest edge is %v", pl.name, q.p.X, q.p.Y, math.Abs(f), math.Abs(s), de), inp)
 				}
 			}
 			all = append(all, o)
@@ -705,7 +712,7 @@ func check(c *Ctx, r *Report) error {
 		ch, prob := chains(lines, ti.pieces)
 		if prob != "" {
 			certBad++
-			r.Violate("clip:"+pname, "polygon "+pl.name+": "+prob, map[string]interface{}{"polygon": pl.name, "v": pl.v})
+			violate("clip:"+pname, "polygon "+pl.name+": "+prob, map[string]interface{}{"polygon": pl.name, "v": pl.v})
 			ch = make([][]sdf.Line2, len(lines))
 		}
 		var tb strings.Builder
